@@ -194,9 +194,9 @@ struct Grid {
     full: bool,
 }
 impl Grid {
-    fn dims(&self) -> [u64; 3] {
-        // type, enc, length (up to 3*ent+ent-1 of the largest entry = 255)
-        [9, 4, 256]
+    fn dims(&self) -> [u64; 4] {
+        // type, enc, length (up to 3*ent+ent-1 of the largest entry = 255), fill {pattern, ff, 00}
+        [9, 4, 256, 3]
     }
 }
 fn pattern(len: usize) -> Vec<u8> {
@@ -204,14 +204,14 @@ fn pattern(len: usize) -> Vec<u8> {
 }
 impl Space for Grid {
     fn name(&self) -> String {
-        "ParsingTable/ParsingIterator for {SectionHeader, ProgramHeader, Symbol, Dyn, VersionIndex, u32, u64, Rel, Rela} x 4 encodings x every byte length 0..=4*entsize-1 (ragged tails included) x indexes 0..len+2 and I(len)".into()
+        "ParsingTable/ParsingIterator for {SectionHeader, ProgramHeader, Symbol, Dyn, VersionIndex, u32, u64, Rel, Rela} x 4 encodings x every byte length 0..=4*entsize-1 (ragged tails included) x contents {mixed pattern, all ff, all 00} x indexes 0..len+2 and I(len)".into()
     }
     fn size(&self) -> u64 {
         product(&self.dims())
     }
     fn describe(&self, idx: u64) -> Value {
         let d = unmix(idx, &self.dims());
-        json!({"type": TYPES[d[0] as usize].0, "encoding": ENCS[d[1] as usize].name(), "byte_len": d[2]})
+        json!({"type": TYPES[d[0] as usize].0, "encoding": ENCS[d[1] as usize].name(), "byte_len": d[2], "fill": d[3]})
     }
     fn run(&self, idx: u64, out: &mut Outcome) {
         let d = unmix(idx, &self.dims());
@@ -221,7 +221,12 @@ impl Space for Grid {
             out.count("beyond_4*entsize-1_not_needed");
             return;
         }
-        let data = pattern(blen);
+        // no field value makes an entry "unparsable": also all-ones (reserved indexes, -1) and all-zero entries
+        let data = match d[3] {
+            0 => pattern(blen),
+            1 => vec![0xff; blen],
+            _ => vec![0x00; blen],
+        };
         let n = blen / ent;
         let mut idxs: Vec<usize> = (0..n + 3).collect();
         idxs.extend(index_alphabet(n, ent));
